@@ -103,11 +103,13 @@ def posterior_configs(fp, xs):
     return [float(v / s) for v in joint] if s > 0 else None
 
 
-def check(out: Outcome, p: dict, xs: list, runners: list, enum: bool = False) -> None:
+def check(out: Outcome, p: dict, xs: list, runners: list, enum: bool = False, cast=None) -> None:
     fp = dets.full_params("BOCD", p)
     r = dets.Runner("a", "BOCD", p)
     if r.det is None:
         return
+    if cast is not None:
+        r.cast = cast
     d = r.det
     rows = posterior_forward(fp, xs)
     fired = False
@@ -124,6 +126,9 @@ def check(out: Outcome, p: dict, xs: list, runners: list, enum: bool = False) ->
         got = [float(v) for v in np.exp(d.log_r[t, : t + 1])]
         # log-joints of magnitude L carry an absolute rounding error of about L * 2^-52, which becomes a relative error of the probabilities
         tol = 1e-9 + 1e-14 * float(np.max(np.abs(d.log_message[np.isfinite(d.log_message)]))) if np.any(np.isfinite(d.log_message)) else 1e-9
+        # the posterior means are stored at the magnitude of the data: an absolute rounding error of about |x| * 2^-52 per update, which moves the densities by
+        # (x - mu) * error / variance - at level 3e9 a few 1e-9 in the probabilities
+        tol += 2e-15 * max(abs(v) for v in xs[:t]) * max(1.0, 1.0 / min(fp["data_var"], fp["prior_var"]))
         tols[t] = tol
         if any(math.isnan(v) for v in got) or abs(sum(got) - 1) > tol:
             out.violation(f"BOCD: run-length row at step {t} sums to {sum(got)!r}", rep)
@@ -283,6 +288,14 @@ def run(out: Outcome) -> None:
         p["min_num_instances"] = rng.choice([1, 2, 3])
         check(out, p, [rng.gauss(rng.choice([0, 2]), 1) for _ in range(9)], runners, enum=True)
     check(out, {}, [rng.gauss(0, 1) for _ in range(45)] + [rng.gauss(4, 1) for _ in range(25)], runners)     # BOCD() with every default (configuration AND model)
+    # cancellation probes: a well-specified model far from the origin (level 1e6 ... 1e9, noise 1): the densities depend on x - mu only, the posterior is
+    # that of the centred data; and integer-valued observations of that size handed over as np.int64 (squares beyond 2^63 must not wrap)
+    for level in ((1e6, 1e8, 3e9) if thorough else (rng.choice([1e6, 1e8]), 3e9)):
+        ints = level == 3e9
+        xs = [level + rng.gauss(0, 1) for _ in range(40)] + [level + 4 + rng.gauss(0, 1) for _ in range(25)]
+        if ints:
+            xs = [float(round(v)) for v in xs]
+        check(out, {"prior_mean": level, "prior_var": 1.0, "data_var": 1.0, "hazard": 0.05, "min_num_instances": 5}, xs, runners, cast="int64" if ints else None)
     for _ in range(6 if thorough else 2):
         check_table_unread(out, gen.rand_params(rng, "BOCD"), [rng.gauss(0, 1) for _ in range(rng.randint(10, 45))] + [rng.gauss(3, 1) for _ in range(rng.randint(5, 30))])
     for _ in range(2 if thorough else 1):
